@@ -81,6 +81,115 @@ func (vc *VC) containmentAxioms() []string {
 	return out
 }
 
+// ---------------------------------------------------------------- interior-pointer alignment
+//
+// at_T(id, slot): a pointer of static type *T into an object of dynamic type id points at a slot where a
+// T begins in that type's flattened layout (array elements lie along the idx dimension and share the
+// slots of one element). Without this, two *T pointers into one enclosing object could be "shifted"
+// against each other by less than the size of T and overlap. Defined per query from the type ids the VC
+// mentions; an id the VC does not know, or a type nested deeper than the walk goes, allows every slot.
+
+func (vc *VC) atPred(t types.Type) string {
+	r := vc.root()
+	name := "at_" + sanitize(types.TypeString(t, nil))
+	if r.atPreds == nil {
+		r.atPreds = map[string]types.Type{}
+	}
+	if _, done := r.atPreds[name]; !done {
+		r.atPreds[name] = t
+		// closed world: every type of the loaded packages that holds a T by value (and T itself, and the
+		// backing arrays of slices / arrays whose elements hold one) gets a type id, so that at_T knows
+		// every kind of object a *T may point into; ids it does not know hold no T
+		r.P.nestedByValue()
+		r.assumed["interior pointers: a *"+types.TypeString(t, nil)+" points at the start of a value of that type inside an object of a package-level named struct type, or a slice/array backing store, of the loaded packages (types declared inside functions and anonymous struct types are not enumerated)"] = true
+		for _, u := range r.P.namedStructs {
+			if containsByValue(u, t, 0) {
+				vc.recordIDType(vc.typeID(u), u)
+			}
+		}
+		var keys []string
+		for k := range r.P.elemTypes {
+			keys = append(keys, k)
+		}
+		sort.Strings(keys)
+		for _, k := range keys {
+			e := r.P.elemTypes[k]
+			if containsByValue(e, t, 0) {
+				if id, ok := vc.backingType(types.NewSlice(e)); ok {
+					_ = id
+				}
+			}
+		}
+	}
+	return name
+}
+
+func offsetsOf(L *Layout, u, t types.Type, base, depth int, out *[]int) {
+	if depth > 12 {
+		*out = append(*out, -1)
+		return
+	}
+	if types.Identical(u, t) {
+		*out = append(*out, base)
+		return
+	}
+	switch x := u.Underlying().(type) {
+	case *types.Struct:
+		for i := 0; i < x.NumFields(); i++ {
+			off, _ := L.FieldOffset(x, i)
+			offsetsOf(L, x.Field(i).Type(), t, base+off, depth+1, out)
+		}
+	case *types.Array:
+		offsetsOf(L, x.Elem(), t, base, depth+1, out)
+	}
+}
+
+// alignmentDefs: one define-fun per at_T predicate (emitted right after the prelude).
+func (vc *VC) alignmentDefs() []string {
+	var names []string
+	for n := range vc.atPreds {
+		names = append(names, n)
+	}
+	sort.Strings(names)
+	var ids []int
+	for id := range vc.idTypes {
+		ids = append(ids, id)
+	}
+	sort.Ints(ids)
+	var out []string
+	for _, n := range names {
+		t := vc.atPreds[n]
+		body := "false"
+		for i := len(ids) - 1; i >= 0; i-- {
+			id := ids[i]
+			var offs []int
+			offsetsOf(vc.L, vc.idTypes[id], t, 0, 0, &offs)
+			if len(offs) == 0 {
+				continue // holds no T: no *T points into it (the default)
+			}
+			anySlot := false
+			var alts []string
+			seen := map[int]bool{}
+			for _, o := range offs {
+				if o < 0 {
+					anySlot = true
+				}
+				if !seen[o] {
+					seen[o] = true
+					alts = append(alts, "(= s "+num(int64(o))+")")
+				}
+			}
+			if anySlot {
+				body = "(ite (= id " + num(int64(id)) + ") true " + body + ")" // nested deeper than the walk goes
+				continue
+			}
+			body = "(ite (= id " + num(int64(id)) + ") " + or(alts...) + " " + body + ")"
+		}
+		out = append(out, "(define-fun "+n+" ((id Int) (s Int)) Bool "+body+")")
+	}
+	return out
+}
+
 // mapValFacts: well-typedness facts for a value looked up in map object m of heap h.
 func (vc *VC) mapValFacts(vals []string, mt *types.Map, kl Leaf, h Heap, m string) []string {
 	var out []string
